@@ -251,6 +251,11 @@ func (c *connection) onProcess(onConnect OnConnect, onRequest OnRequest) (proces
 		//       So here we need to check connection state again, to avoid connection leak
 		// double check close state
 		if c.status(closing) != 0 && c.lock(processing) {
+			// data may have arrived together with the peer's close after the loop above was left:
+			// it must still be offered to onRequest (`send & close by peer`) before the callbacks run
+			if onRequest != nil && c.isCloseBy(poller) && c.Reader().Len() > 0 {
+				goto START
+			}
 			// poller will get the processing lock failed, here help poller do closeCallback
 			// fd must already detach by poller
 			c.closeCallback(false, false)
